@@ -34,6 +34,7 @@ STRAND_COLS = {"bed6": 5, "narrowpeak": 5, "gtf": 6}
 BAD_NUM = ["x", "12a", "a12", "1x2", "1P", "P", "1.5x", "7Q", "3 "]
 BAD_STRAND = ["x", "K", "M", "N", "*", "p"]
 LINES_PER = {"fasta2": 2, "fastq": 4}
+COLUMN_COUNT_KINDS = ("fewer-columns", "more-columns", "double-columns")
 
 
 def kinds_for(fmt, nrec):
@@ -75,7 +76,8 @@ def malformed_bytes(case):
                 f[v["col"]] = v["text"]
                 lines[0] = "\t".join(f)
             elif kind == "fewer-columns":
-                lines[0] = "\t".join(lines[0].split("\t")[:-1])
+                f = lines[0].split("\t")
+                lines[0] = "\t".join(f[:10] if case["fmt"] == "sam" else f[:-1])
             elif kind == "more-columns":
                 lines[0] = lines[0] + "\t" + v.get("text", "7")
             elif kind == "double-columns":
@@ -90,6 +92,10 @@ def malformed_bytes(case):
     per = LINES_PER.get(fmt.kind, 1)
     first = v["pos"] * per
     admissible = {first, first + 2} if v["kind"] == "bad-plus" else {first}
+    if v["kind"] in COLUMN_COUNT_KINDS:
+        # a disagreement in column count is between line p and its neighbour: the code reports the first line that
+        # differs from the line it took the count from, which is p, or p+1 when p is the line the count was taken from
+        admissible = {first, first + 1}
     return data, admissible, offset
 
 
@@ -147,7 +153,7 @@ def check(case, stats=None):
         if ln is None or int(ln) not in admissible:
             out.append(Failure(f"C15:line-number:{tag}", {"reported": None if ln is None else int(ln), "admissible": sorted(admissible),
                                                           "k": case["k"], "lazy": case["lazy"], "gzip": case["gzip"]}))
-        ref, _ = _consume(data, fmt, None, False, False)
+        ref, _ = (None, None) if v["kind"] in COLUMN_COUNT_KINDS else _consume(data, fmt, None, False, False)
         if isinstance(ref, FormatException) and ref.line_number is not None and ln is not None and int(ref.line_number) != int(ln):
             out.append(Failure(f"C15:line-number-varies:{tag}", {"whole_read": int(ref.line_number), "this_config": int(ln),
                                                                  "k": case["k"], "lazy": case["lazy"], "gzip": case["gzip"]}))
